@@ -3,11 +3,24 @@ import os
 import sys
 
 sys.path.insert(0, os.path.dirname(os.path.dirname(os.path.abspath(__file__))))
-from translate import pwm_complement  # noqa: E402
+from translate import pwm_complement, pwm_skel  # noqa: E402
 
 
 def translate():
-    return pwm_complement.generate()
+    # abc.rs -> GenComplement.v (alphabet constants, complement table); pwm/mod.rs -> GenPwmSkel.v (statement
+    # skeletons of the functions modelled in PwmStat.v, compared with the pinned PwmSkel.v by C09_source_skeleton)
+    a = pwm_complement.generate()
+    b = pwm_skel.translate()
+    return dict(ok=a.get("ok", True) and b.get("ok", True),
+                errors=list(a.get("errors", [])) + list(b.get("errors", [])),
+                notes=list(a.get("notes", [])) + list(b.get("notes", [])))
+
+
+def _e2e_stat_obligations():
+    # the statistics-side composition theorems of coq/e2e (E2EStat.v) count as obligations of the thorough
+    # tier (round 3, requested by the e2e builder; lazy import, quick tier untouched; see props/e2e.py STAT_EXTRA)
+    from props import e2e
+    return e2e.obligations_stat()
 
 
 def _fields(line):
@@ -24,6 +37,11 @@ def nontrivial(line):
         return (k, f.get("a"), src, f.get("ps"), f.get("bg"), f.get("bg2"), f.get("base"), f.get("seq"))
     if k == "raw":
         return (k, f.get("a"), f.get("sm"), f.get("seq")) if f.get("sm") else None
+    if k == "stat":
+        src = f.get("seqs", f.get("counts", ""))
+        if not src:
+            return None
+        return (k, f.get("a"), src, f.get("counts2"), f.get("ps"), f.get("bg"), f.get("delays"), f.get("sm"))
     if k in ("bgnew", "bgcnt", "bgseq", "fnew"):
         return (k, f.get("a"), f.get("v", f.get("c", f.get("m", f.get("seqs")))), f.get("unk"), f.get("multi"),
                 f.get("cols"), f.get("wrap"))
@@ -35,6 +53,17 @@ def histogram(line):
     keys = ["kind=" + f.get("k", "?"), "alphabet=" + f.get("a", "?")]
     if f.get("k") == "bgseq":
         keys.append("bgseq-mode=" + {"0": "slice", "1": "from_sequences", "2": "striped"}.get(f.get("multi"), "?"))
+    if f.get("k") == "stat":
+        rows = [r.split(",") for r in f.get("counts", "").split(";") if r]
+        if any(all(c == "0" for c in r) for r in rows):
+            keys.append("stat:zero-row")
+        if any(sum(int(c) for c in r) >= 2 ** 32 for r in rows):
+            keys.append("stat:u32-row-sum-overflow")
+        if any(len(r) > 1 and sorted(map(int, r))[-1] == sorted(map(int, r))[-2] for r in rows):
+            keys.append("stat:tied-maximum")
+        if f.get("counts") is not None and f.get("counts") == f.get("counts2"):
+            keys.append("stat:cross-with-itself")
+        keys.append("stat:bg=" + f.get("bg", "?").split(":")[0])
     if f.get("k") == "pipe":
         keys.append("src=" + ("seqs" if "seqs" in f else "counts"))
         if "seqs" in f:
@@ -69,6 +98,11 @@ SPEC = dict(
     group="pwm",
     props_file="C09.v",
     module="LMPwm.C09",
+    more_props=[("C09Stat.v", "LMPwm.C09Stat")],
+    extra_obligations={"thorough": _e2e_stat_obligations},
+    extra_obligations_name="coq/e2e/E2EStat.v: composition of C09 (conversion chain), C11 / C12 / C13, C10, C14 and the "
+                           "scanning pipeline of E2E.v",
+    extra_obligations_cmd="make -C coq/e2e (and imported groups) + Print Assumptions audit of LME2E.E2EStat",
     harness_bin="pwm",
     harness_args=["c09"],
     driver_args=["c09"],
